@@ -553,8 +553,11 @@ func checkC13(c *Ctx) {
 	lwtM := c.cm(ru4, "wasp/sessions", "Session", "LWT")
 	if handler != nil && sa != nil && lwtM != nil {
 		bad := "SessionMetadatas.Create is not called"
-		for _, cl := range core.CallsTo(handler, sa.sessCreate) {
-			cv, ok := core.Strip(cl.Arg(3)).(*ssa.Call)
+		for _, cl := range c.callsToDeep(handler, 2, sa.sessCreate) { // in the handler or a helper of it (announce(session))
+			cv, ok := deepStrip(cl.Arg(3)).(*ssa.Call)
+			if !ok {
+				cv, ok = core.Strip(cl.Arg(3)).(*ssa.Call)
+			}
 			if ok && core.CallOf(cv).Is(lwtM) {
 				bad = ""
 			} else {
